@@ -1,5 +1,6 @@
 /- Helper lemmas for property C15 (model: Rl/Completion.lean). -/
 import Rl.Completion
+import Rl.Spec.Completion
 namespace Rl.Completion
 
 /-! ### unescape ∘ escape -/
@@ -306,6 +307,162 @@ theorem scanGo_sq (s : Text) (hs : '\'' ∉ s) (i qi : Nat) :
     simp only [scanGo, scanStep, n, if_false]
     exact ih (fun h => hs (by simp [h])) _
 
+
+/-! ### bare_word_start: the forward scan of the completer -/
+
+section bare
+variable (B : Char → Bool)
+
+theorem bareGo_append (a b : Text) (i : Nat) (m : ScanMode) (st : Nat) :
+    bareGo B (a ++ b) i m st
+      = bareGo B b (i + blen a) (bareGo B a i m st).1 (bareGo B a i m st).2 := by
+  induction a generalizing i m st with
+  | nil => simp [bareGo]
+  | cons c t ih =>
+    simp only [List.cons_append, bareGo, blen_cons]
+    rw [ih]
+    congr 1
+    omega
+
+/-- one iteration leaves `start` alone or moves it to the end of the character just read -/
+theorem bareStep_start (m : ScanMode) (st i : Nat) (c : Char) :
+    (bareStep B m st i c).2 = st ∨ (bareStep B m st i c).2 = i + c.utf8Size := by
+  cases hB : B c <;> cases m <;> simp only [bareStep, hB] <;> (repeat' split) <;> simp
+
+/-- `start` is always a character boundary of the part of the line read so far -/
+theorem bareGo_boundary (rest done : Text) (m : ScanMode) (st : Nat)
+    (hst : ∃ a b, done = a ++ b ∧ st = blen a) :
+    ∃ a b, done ++ rest = a ++ b ∧ (bareGo B rest (blen done) m st).2 = blen a := by
+  induction rest generalizing done m st with
+  | nil =>
+    obtain ⟨a, b, h1, h2⟩ := hst
+    exact ⟨a, b, by simpa using h1, by simpa [bareGo] using h2⟩
+  | cons c t ih =>
+    simp only [bareGo]
+    have hb : blen done + c.utf8Size = blen (done ++ [c]) := by simp
+    have hl : done ++ c :: t = (done ++ [c]) ++ t := by simp
+    rw [hb, hl]
+    apply ih
+    rcases bareStep_start B m st (blen done) c with h | h
+    · obtain ⟨a, b, h1, h2⟩ := hst
+      exact ⟨a, b ++ [c], by rw [h1]; simp, by rw [h, h2]⟩
+    · exact ⟨done ++ [c], [], by simp, by rw [h, hb]⟩
+
+/-- the slice `&line[start..pos]` of `complete_path` never panics -/
+theorem bareWordStart_split (l : Text) :
+    ∃ a w, l = a ++ w ∧ bareWordStart B l = blen a ∧ splitAtByte l (bareWordStart B l) = some (a, w) := by
+  obtain ⟨a, w, h1, h2⟩ := bareGo_boundary B l [] .normal 0 ⟨[], [], rfl, rfl⟩
+  simp only [List.nil_append, blen_nil] at h1 h2
+  refine ⟨a, w, h1, h2, ?_⟩
+  unfold bareWordStart
+  rw [h2]
+  conv => lhs; arg 1; rw [h1]
+  exact splitAtByte_append a w
+
+/-- in normal mode the escaped text is read as one word: neither the mode nor `start` moves -/
+theorem bareGo_escaped (h1 : B '"' = true) (h2 : B '\\' = true) (h3 : B '\'' = true) (s : Text)
+    (i st : Nat) :
+    bareGo B (s.flatMap (escChar '\\' B)) i .normal st = (.normal, st) := by
+  induction s generalizing i with
+  | nil => rfl
+  | cons c t ih =>
+    simp only [List.flatMap_cons, escChar]
+    by_cases hc : B c = true
+    · simp only [hc, if_true, List.cons_append, List.nil_append, bareGo, bareStep]
+      simp [ih]
+    · have hc' : B c = false := by simpa using hc
+      have n1 : c ≠ '"' := fun h => hc (h ▸ h1)
+      have n2 : c ≠ '\\' := fun h => hc (h ▸ h2)
+      have n3 : c ≠ '\'' := fun h => hc (h ▸ h3)
+      simp only [hc', Bool.false_eq_true, if_false, List.cons_append, List.nil_append, bareGo, bareStep,
+        n1, n2, n3]
+      exact ih _
+
+/-- the scan of `pre ++ E`, where `E` is an escaped text and the scan of `pre` ends in normal
+    mode with an empty word: the word is `E` -/
+theorem bareWordStart_escaped (h1 : B '"' = true) (h2 : B '\\' = true) (h3 : B '\'' = true)
+    (pre s : Text) (hpre : bareGo B pre 0 .normal 0 = (.normal, blen pre)) :
+    bareWordStart B (pre ++ s.flatMap (escChar '\\' B)) = blen pre := by
+  unfold bareWordStart
+  simp only [bareGo_append, hpre, bareGo_escaped B h1 h2 h3]
+
+/-- the loop of `bare_word_start` and the loop of `find_unclosed_quote` are in the same mode
+    after every text, whatever the break set -/
+theorem bareGo_mode (l : Text) (i j st qi : Nat) (m : ScanMode) :
+    (bareGo B l i m st).1 = (scanGo l j m qi).1 := by
+  induction l generalizing i j st qi m with
+  | nil => rfl
+  | cons c t ih =>
+    simp only [bareGo, scanGo]
+    have hs : (bareStep B m st i c).1 = (scanStep m qi j c).1 := by
+      cases m <;> simp only [bareStep, scanStep] <;> (repeat' split) <;> simp_all
+    rw [hs]
+    exact ih _ _ _ _ _
+
+end bare
+
+/-! ### bare_word_start against the declarative reader -/
+
+section reader
+open Rl.Spec.Completion
+
+/-- the reader's modes are the scanner's modes -/
+def modeOf : LMode → ScanMode
+  | .bare => .normal
+  | .bareEsc => .escape
+  | .dq => .doubleQuote
+  | .dqEsc => .escapeInDoubleQuote
+  | .sq => .singleQuote
+
+theorem bareStep_lexStep (st : Lexed) (i : Nat) (c : Char) :
+    bareStep defaultBreak (modeOf st.mode) st.start i c
+      = (modeOf (lexStep defaultBreak st i c).mode, (lexStep defaultBreak st i c).start) := by
+  have b1 : defaultBreak '"' = true := by decide
+  have b3 : defaultBreak '\'' = true := by decide
+  obtain ⟨start, mode, path, plain⟩ := st
+  cases mode with
+  | bare =>
+    simp only [modeOf, bareStep, lexStep]
+    by_cases h2 : c = '\\'
+    · simp [h2]
+    · by_cases h1 : c = '"'
+      · subst h1; simp [b1]
+      · by_cases h3 : c = '\''
+        · subst h3; simp [b3]
+        · cases hb : defaultBreak c <;> simp [h1, h2, h3]
+  | bareEsc => simp [modeOf, bareStep, lexStep]
+  | dq =>
+    simp only [modeOf, bareStep, lexStep]
+    by_cases h1 : c = '"'
+    · subst h1; simp [b1]
+    · by_cases h2 : c = '\\'
+      · simp [h2]
+      · simp [h1, h2]
+  | dqEsc => simp [modeOf, bareStep, lexStep]
+  | sq =>
+    simp only [modeOf, bareStep, lexStep]
+    by_cases h3 : c = '\''
+    · subst h3; simp [b3]
+    · simp [h3]
+
+/-- the loop of `bare_word_start` (unix break set) computes the reader's mode and the reader's
+    word start, on every text -/
+theorem bareGo_lexGo (l : Text) (i : Nat) (st : Lexed) :
+    bareGo defaultBreak l i (modeOf st.mode) st.start
+      = (modeOf (lexGo defaultBreak l i st).mode, (lexGo defaultBreak l i st).start) := by
+  induction l generalizing i st with
+  | nil => rfl
+  | cons c t ih =>
+    simp only [bareGo, lexGo]
+    rw [bareStep_lexStep]
+    exact ih _ _
+
+theorem bareGo_lex (l : Text) :
+    bareGo defaultBreak l 0 .normal 0
+      = (modeOf (lex defaultBreak l).mode, (lex defaultBreak l).start) :=
+  bareGo_lexGo l 0 {}
+
+end reader
 
 /-! ### UTF-8 facts needed for `longest_common_prefix` -/
 
